@@ -10,7 +10,7 @@ from ..core import FAILED
 
 DECIDING = ["O1:unentangled=bruteforce", "O2:unent<=NPA", "O2:qlb<=NPA", "O2:NPA<=NS", "O3:hedging-duality", "O3:hedging-max>=min",
             "O3:hedging-closed-form", "O3:hedging-feasible-point", "O3:hedging-repetition", "O4:clone-duality", "O4:clone-closed-form",
-            "O4:clone-repetition", "O4:clone-invariance"]
+            "O4:clone-repetition", "O4:clone-invariance", "O4:clone>=explicit-strategy"]
 RULE = ("extended games: referee dimension 2..3, answer/question counts 1..3 drawn independently, PSD predicate operators (real and complex) not symmetric "
         "under exchange of the players, plus the BB84 extended game as anchor; hedging: random real-symmetric / complex-Hermitian PSD Q with lambda_max 1 "
         "and the Molina-Watrous example, n = 1, 2; cloning: ensembles of 1..4 qubit states, real and complex amplitudes, any prior, n = 1, 2; signature "
@@ -344,6 +344,29 @@ def _run_clone(ctx, spec, rng):
             ctx.check("O4:clone-closed-form", None, dev=abs(dual1 - 0.75), tol=TOL, sig=("bb84", 1), mech="optimal_clone:bb84!=3/4", detail=det)
         if name == "single":
             ctx.check("O4:clone-closed-form", None, dev=abs(dual1 - 1.0), tol=TOL, sig=("single", 1), mech="optimal_clone:single-state!=1", detail=det)
+        # explicit counterfeiting strategy: keep the note and prepare a fixed |phi> as the copy; succeeds with sum_i p_i |<psi_i|phi>|^2, best phi = top eigenvector
+        avg = sum(p * (s @ s.conj().T) for p, s in zip(probs, states))
+        explicit = float(np.linalg.eigvalsh(ref.herm(avg)).max())
+        ctx.check("O4:clone>=explicit-strategy", dual1 >= explicit - TOL, dev=max(0.0, explicit - dual1), tol=TOL, sig=sig, nt=name == "random", mech="optimal_clone:below-explicit-strategy",
+                  detail=dict(det, explicit_strategy=explicit))
+        # a state that is never issued (prior 0), inserted anywhere in the list, changes nothing; neither does the listing order
+        if name != "single" and field == "real":
+            pos = int(rng.integers(0, len(states) + 1))
+            extra = gen.unit(rng, 2, False).reshape(2, 1)
+            st0, pr0 = [x.copy() for x in states], list(probs)
+            st0.insert(pos, extra)
+            pr0.insert(pos, 0.0)
+            ctx.evals["solver-call"] += 1
+            v0 = ctx.call(optimal_clone, st0, pr0, 1, False, solver=True, mech=mech_crash)
+            if v0 is not FAILED and v0 is not None:
+                ctx.check("O4:clone-invariance", None, dev=abs(float(np.real(v0)) - dual1), tol=TOL, sig=sig + ("zero-prior-state", pos == len(states)), nt=True,
+                          mech="optimal_clone:changes-when-a-zero-prior-state-is-inserted", detail=dict(det, position=pos, value=v0))
+            order = [int(t) for t in rng.permutation(len(states))]
+            ctx.evals["solver-call"] += 1
+            vp = ctx.call(optimal_clone, [states[t].copy() for t in order], [probs[t] for t in order], 1, False, solver=True, mech=mech_crash)
+            if vp is not FAILED and vp is not None:
+                ctx.check("O4:clone-invariance", None, dev=abs(float(np.real(vp)) - dual1), tol=TOL, sig=sig + ("reordered",), nt=True,
+                          mech="optimal_clone:depends-on-listing-order", detail=dict(det, order=order, value=vp))
         # invariance under a common (real orthogonal, so the ensemble stays in the same field) unitary
         u = gen.haar(rng, 2, real=field == "real")
         ctx.evals["solver-call"] += 1
